@@ -40,7 +40,7 @@ func init() {
 			"whose matchers all say no without reading), PRF streams with random segmentation, an Accept consumer with scripted pacing " +
 			"(immediate / slower than arrival / stops), and a scripted close instant. every sixth run is followed by a two-listener run (one wrapper instance wraps two listeners: each connection must come out of its own listener's Accept, closing one leaves the other serving). oracle: each B/C connection is returned by Accept exactly once and reads the client's stream from the first " +
 			"unconsumed byte (TLS: plaintext + ConnectionState) with no read deadline left armed by matching; A/D are never returned and are closed; a connection pending at Close is either returned once or closed, never both/neither; " +
-			"after Close Accept returns net.ErrClosed and no goroutine remains in layer4.(*listener). non-trivial = >=1 fall-through connection accepted; distinct = hash(order signature of arrive/accept/close events). classes Q (v1 PROXY UNKNOWN header) and V (v2 header) fall through like P; in half of the runs the tls route is the first route, so the matchers of the other routes look at the plaintext before the connection falls through.",
+			"after Close Accept returns net.ErrClosed and no goroutine remains in layer4.(*listener). non-trivial = >=1 fall-through connection accepted; distinct = hash(order signature of arrive/accept/close events). classes Q (v1 PROXY UNKNOWN header) and V (v2 header) fall through like P; in half of the runs the tls route is the first route, so the matchers of the other routes look at the plaintext before the connection falls through. class W: a non-terminal tee handler (which passes a wrapped connection on) in the matched route, then fall-through.",
 		Assumptions: []string{
 			"scripted transport; the consumer reads each accepted connection to EOF on its own goroutine",
 			"matching timeouts are 150-350 ms: a fall-through connection that layer4 dropped at its deadline while the scheduler canary shows stalls above an eighth of the timeout is counted as inconclusive (starved client), not as lost",
@@ -90,6 +90,9 @@ func routesJSON(matchTimeoutMs int, withTLS, tlsFirst bool) string {
 		map[string]any{"match": []any{m("C", 'C')}, "handle": []any{map[string]any{"handler": "verif_take", "name": "takeC", "n": 5}}},
 		// P: proxy_protocol header stripped, then falls through
 		map[string]any{"match": []any{map[string]any{"proxy_protocol": map[string]any{}}}, "handle": []any{map[string]any{"handler": "proxy_protocol"}}},
+		// K: non-terminal take of one byte behind routes that are still undecided on a three-byte first message (tls needs 5
+		// bytes, proxy_protocol 12): a later route that can be decided runs first, and the routes after it decide on two bytes
+		map[string]any{"match": []any{m("K", 'K')}, "handle": []any{map[string]any{"handler": "verif_take", "name": "takeK", "n": 1}}},
 		// E: matcher error
 		map[string]any{"match": []any{map[string]any{"verif_m1": map[string]any{"id": "E", "need": 1, "at": 0, "eq": int('E'), "err_if": true}}},
 			"handle": []any{map[string]any{"handler": "verif_sink", "name": "sinkE"}}},
@@ -101,6 +104,8 @@ func routesJSON(matchTimeoutMs int, withTLS, tlsFirst bool) string {
 	rs = append(rs, map[string]any{"match": []any{m("S", 'S')}, "handle": []any{map[string]any{"handler": "subroute", "routes": []any{
 		map[string]any{"match": []any{map[string]any{"verif_m2": map[string]any{"id": "SZ", "need": 2, "at": 1, "eq": int('Z')}}},
 			"handle": []any{map[string]any{"handler": "verif_sink", "name": "sinkS"}}}}}}})
+	// W: non-terminal tee (the branch is a recording sink; the handler passes a wrapped connection on), then falls through
+	rs = append(rs, map[string]any{"match": []any{m("W", 'W')}, "handle": []any{map[string]any{"handler": "tee", "branch": []any{map[string]any{"handler": "verif_sink", "name": "teeW", "bufsize": 700}}}}})
 	if withTLS {
 		tr := map[string]any{"match": []any{map[string]any{"tls": map[string]any{}}}, "handle": []any{map[string]any{"handler": "tls"}}}
 		if tlsFirst {
@@ -116,7 +121,7 @@ func routesJSON(matchTimeoutMs int, withTLS, tlsFirst bool) string {
 
 type connPlan struct {
 	ID     string
-	Class  byte // A B C P Q V E U F(lood) T(ls) L(ate) N(o-read fall-through) M(no-read, late)
+	Class  byte // A B C P Q V W(tee) K(short first message) E U F(lood) T(ls) L(ate) N(o-read fall-through) M(no-read, late)
 	Stream []byte
 	Wire   []byte
 	Expect []byte // what the accepted connection must read (nil for non-delivered classes)
@@ -192,7 +197,7 @@ func oneRun(c *fw.Ctx, cert *tlsutil.Cert, index, nConns int) {
 
 	// plan connections
 	// Q: like P with a v1 "PROXY UNKNOWN" header (no addresses declared), V: like P with a v2 header
-	classes := []byte("ABBBCCPPQQVEUFTTLSS")
+	classes := []byte("ABBBCCPPQQVEUFTTLSSWW")
 	plans := make([]*connPlan, nConns)
 	for k := range plans {
 		cl := classes[r.Intn(len(classes))]
@@ -202,6 +207,9 @@ func oneRun(c *fw.Ctx, cert *tlsutil.Cert, index, nConns int) {
 		}
 		id := fmt.Sprintf("c13-%d-%d-%d", c.Shard, index, k)
 		s := oracle.Stream(streamDomain, uint64(fw.Mix(c.Seed, id)), n)
+		if cl == 'B' && tlsFirst && r.Intn(3) == 0 {
+			cl = 'K' // (only with the tls route in front: behind K every route has to decide on two bytes)
+		}
 		if noRead {
 			cl = "NNM"[r.Intn(3)] // N: plain fall-through, M: the same with a client that sends most of its stream late
 		}
@@ -249,6 +257,12 @@ func oneRun(c *fw.Ctx, cert *tlsutil.Cert, index, nConns int) {
 		case 'S':
 			s[0], s[1] = 'S', 'q'
 			p.Wire, p.Expect = s, s
+		case 'W':
+			s[0] = 'W'
+			p.Wire, p.Expect = s, s
+		case 'K':
+			s[0], s[1], s[2] = 'K', 'x', 'y'
+			p.Wire, p.Expect = s, s[1:]
 		}
 		p.Segs = drive.Segmentation(drive.SegClasses[r.Intn(len(drive.SegClasses))], len(p.Wire), rand.New(rand.NewSource(r.Int63())))
 		if len(p.Segs) > 400 {
@@ -354,6 +368,15 @@ func oneRun(c *fw.Ctx, cert *tlsutil.Cert, index, nConns int) {
 				p.sentAt.Store(int64(vnet.Now()))
 				time.Sleep(time.Duration(timeoutMs)*time.Millisecond + 250*time.Millisecond)
 				_, _ = p.client.Write(p.Wire[9:])
+				_ = p.client.CloseWrite()
+				return
+			}
+			if p.Class == 'K' {
+				// a short first message, then the client waits (longer than the matching timeout) before it goes on
+				_, _ = p.client.Write(p.Wire[:3])
+				p.sentAt.Store(int64(vnet.Now()))
+				time.Sleep(time.Duration(timeoutMs)*time.Millisecond + 250*time.Millisecond)
+				_, _ = p.client.Write(p.Wire[3:])
 				_ = p.client.CloseWrite()
 				return
 			}
